@@ -815,6 +815,14 @@ func (x *Exec) builtin(st *State, name string, cc *ssa.CallCommon, args []Val, s
 		s, t := args[0], args[1]
 		sn := cx.sortOf(s.T)
 		plus := cx.op("+")
+		if sl, ok := cc.Args[0].(*ssa.Slice); ok && sl.High != nil {
+			if _, isSlice := sl.X.Type().Underlying().(*types.Slice); isSlice {
+				// append(x[:k], ...) writes into x's storage when k < len(x): shared storage is not covered by the value model
+				xv := x.val(st, sl.X)
+				hv := x.val(st, sl.High)
+				x.check(st, "safe:alias@"+site, fmt.Sprintf("(= %s (len_%s %s))", hv.S, cx.sortOf(sl.X.Type()), xv.S), site)
+			}
+		}
 		if isString(t.T) {
 			panic(unsupported("append(bytes, string...)"))
 		}
